@@ -7,7 +7,7 @@ Open Scope Z_scope.
 Record valuetype := { vt_type : string; vt_unit : string }.
 
 Record sample := {
-  s_loc : list Z;                              (* location ids, leaf first (Go order) *)
+  s_loc : list Z;                              (* location ids, leaf first (Go order); -1 = nil pointer *)
   s_val : list Z;                              (* int64 values *)
   s_label : list (string * list string);       (* Label, sorted by key *)
   s_numlabel : list (string * list Z);         (* NumLabel, sorted by key *)
